@@ -206,6 +206,21 @@ def choose_substitutions(rng, lines, times, mode):
                  and re.match(r'^\d', p.rows[0][4][1][2])]
         if not cands: return []
         add(rng.choice(cands), 1, 'negative')
+    elif mode == 'dup-rows':
+        # rows printed under a name that another row of the same table also carries (AUTOUGH2/7 'Atx13', TOUGH2-MP border
+        # rows): change a number in one of them so that the copies differ
+        groups = []
+        for tabs in times:
+            for p in tabs:
+                seen = {}
+                for r in p.rows:
+                    if r[4]: seen.setdefault(norm_key(r[1]), []).append(r)
+                groups += [rs for rs in seen.values() if len(rs) > 1]
+        rng.shuffle(groups)
+        for rs in groups[:6]:
+            r = rs[0] if rng.random() < 0.7 else rng.choice(rs)
+            for _ in range(4):
+                if add(r, rng.randrange(len(r[4])), rng.choice(['digits', 'digits', 'negative'])): break
     elif mode == 'first-rows':
         for p in times[0]:
             if p.rows and p.rows[0][4]:
@@ -550,22 +565,51 @@ def check_table(lst, tn, ti, ptabs, lines, fail, stats, res, job):
                 stats['layout_sidecond_met'] = stats.get('layout_sidecond_met', 0) + 1
     for r in P.rows[:: job.get('tok_stride', 1)]:
         res['tok'].append(('tok\t%s\t%d' % (hx(r[5]), 1 if col0I else 0), 'T ' + ','.join(hx(x) for x in (list(r[3]) + [t[2] for t in r[4]]))))
-    # addressing: row name / row index / column name agree; reversed connection keys negate
+    # addressing: row name / row index / column name agree; reversed connection keys negate.
+    # Row-index and column-name addressing are exact whatever the names (every row index, repeated names included):
+    # table[i] is the i-th row, table[i][c] == table[c][i], and when the exposed rows are the printed rows in printed order
+    # (AUTOUGH2 assigns by position; elsewhere only when the names are distinct) table[i] holds the numbers of the i-th
+    # printed row.  Row-name addressing is exact for a name carried by one row; for a repeated name it must give one of
+    # the printed rows with that name.
     astride = job.get('addr_stride', 1)
     colnames = list(T.column_name)
     cols = {}
     for c in set(colnames): cols[c] = T[c]
-    dup_names = len(set(rn)) != len(rn)
-    for i in list(range(0, len(rn), astride)) + ([len(rn) - 1] if rn else []):
+    count = {}
+    for k in rn: count[k] = count.get(k, 0) + 1
+    dup_names = len(count) != len(rn)
+    dup_idx = [i for i, k in enumerate(rn) if count[k] > 1]
+    aligned = len(P.rows) == len(rn) and all(norm_key(r[1]) == k for r, k in zip(P.rows, rn)) \
+        and (not dup_names or str(lst.simulator).startswith('AUTOUGH'))
+    def printed_vals(r):
+        v = [float(x) for x in r[3]] + [O.token_value(t[2]) for t in r[4]]
+        return v + [0.0] * (ncols - len(v)) if len(v) <= ncols else None
+    if dup_idx: stats['rows_with_repeated_names'] = stats.get('rows_with_repeated_names', 0) + len(dup_idx)
+    for i in sorted(set(list(range(0, len(rn), astride)) + ([len(rn) - 1] if rn else []) + dup_idx)):
         k = rn[i]
         by_i = T[i]
         stats['addr_rows'] = stats.get('addr_rows', 0) + 1
         if by_i.get('key') != k:
-            fail('addressing', 'listingtable:index-row-key', dict(base, row=k), by_i.get('key'), k)
+            fail('addressing', 'listingtable:index-row-key', dict(base, row=k, row_index=i), by_i.get('key'), k)
         for c in cols:
             if not same(cols[c][i], by_i[c]):
-                fail('addressing', 'listingtable:column-vs-index', dict(base, row=k, column=c), repr(cols[c][i]), repr(by_i[c]))
-        if not dup_names and k not in cols:
+                fail('addressing', 'listingtable:column-vs-index', dict(base, row=k, row_index=i, column=c),
+                     'table[%d][%r] = %r' % (i, c, by_i[c]), 'table[%r][%d] = %r' % (c, i, cols[c][i]))
+                break
+        if aligned:
+            pv = printed_vals(P.rows[i])
+            if pv is not None and all(x is not None for x in pv):
+                stats['addr_rows_vs_printed'] = stats.get('addr_rows_vs_printed', 0) + 1
+                for j, c in enumerate(colnames):
+                    if colnames.count(c) == 1 and not same(by_i[c], pv[j]):
+                        key = 'listingtable:index-vs-printed-row'
+                        if absent_at_first(job, ptabs, P): key = ABSENT_FIRST
+                        elif first_row_fixed_then_signed(job['_times0']): key = NEG2
+                        fail('addressing', key, dict(base, row=k, row_index=i, column=c, line_no=P.rows[i][0], line=P.rows[i][5]),
+                             'table[%d][%r] = %r' % (i, c, by_i[c]), 'the number printed in row %d of the table: %r' % (i, pv[j]))
+                        break
+        if k in cols: continue
+        if count[k] == 1:
             by_k = T[k]
             if by_k is None or by_k.get('key') != k or any(not same(by_k[c], by_i[c]) for c in cols):
                 fail('addressing', 'listingtable:name-vs-index', dict(base, row=k), repr(by_k)[:300], repr(by_i)[:300])
@@ -576,11 +620,18 @@ def check_table(lst, tn, ti, ptabs, lines, fail, stats, res, job):
                     rv = T[rk]
                     if rv is None or rv.get('key') != rk or any(not same(rv[c], -by_i[c]) for c in cols):
                         fail('addressing', 'listingtable:reversed-key-negates', dict(base, row=rk), repr(rv)[:300], 'negated ' + repr(by_i)[:300])
+        else:
+            by_k = T[k]
+            stats['repeated_name_lookups'] = stats.get('repeated_name_lookups', 0) + 1
+            cands = [printed_vals(r) for r in printed.get(k, [])]
+            ok_k = by_k is not None and by_k.get('key') == k and any(
+                pv is not None and all(pv[j] is not None and same(by_k[c], pv[j]) for j, c in enumerate(colnames) if colnames.count(c) == 1)
+                for pv in cands)
+            if not ok_k:
+                fail('addressing', 'listingtable:repeated-name-not-a-printed-row', dict(base, row=k), repr(by_k)[:300],
+                     'one of the %d printed rows named %r' % (len(cands), k))
 
 
-# ---------------------------------------------------------------------------------------
-# file level: the whole reader (open + index = i, skipped subsets) against the extracted model Reader.v,
-# and the membership of the listing in the class of the whole-file theorem (CheckT2.file_check)
 def skip_subsets(names, how):
     subs = [list(c) for k in range(1, len(names) + 1) for c in itertools.combinations(names, k)]
     if how == 'all': return subs
